@@ -371,7 +371,8 @@ var refPool = []string{"refs/heads/main", "refs/heads/foo", "refs/heads/foobar",
 	"refs/tags/foo", "refs/tags/release/1.0", "refs/remotes/origin/main", "refs/remotes/origin/foo",
 	"refs/remotes/up/main", "refs/notes/commits", "refs/stash", "refs/stashed", "refs/pull/1/head", "refs/pull/22/merge",
 	"refs/changes/01/1/1", "refs/changes/12/345/6", "refs/changes/1/2/3", "refs/foo", "refs/foobar", "refs/foo-bar",
-	"refs/barfoo", "refs/bar/foo", "refs/x/heads/y", "refs/headstrong", "refs/he", "refs/tagsoup", "refs/misc/a"}
+	"refs/barfoo", "refs/bar/foo", "refs/x/heads/y", "refs/headstrong", "refs/he", "refs/tagsoup", "refs/misc/a",
+	"refs/stash/backup", "refs/pull/1/headx", "refs/pull/x/head", "refs/changes/12/345/6/7", "refs/notesx/n", "refs/remotesx/o"}
 
 // conflictFree drops names that would collide with a directory of another (D/F conflict).
 func conflictFree(names []string) []string {
